@@ -24,10 +24,13 @@ def judge(case):
     prog = case["prog"]
     text = M.render(prog)
     viol = []
+    noise_tags = common.pre_noise(case)
     res = sut.compile_text(text)
-    tags = common.shape_tags(prog)
+    tags = common.shape_tags(prog) + noise_tags
     if res[0] != "ok":
-        return {"viol": ["grammatical experiment does not compile: %s: %s | %s" % (res[1], res[2], text)],
+        if noise_tags:
+            common.reset_after_violation()
+        return {"viol": ["grammatical experiment does not compile: %s: %s | %s%s" % (res[1], res[2], text, _after(case))],
                 "nontrivial": False, "tags": tags}
     ev = res[1]
     outcomes = []
@@ -38,10 +41,16 @@ def judge(case):
         outcomes.append(refinterp.run(prog, env))
         if msg:
             viol.append("%s | inputs=%r | %s" % (msg, env, text))
+    if viol and noise_tags:
+        common.reset_after_violation()
     nontrivial = prog["body"]["k"] == "if" and len(set(outcomes)) >= 2
     return {"viol": viol, "nontrivial": nontrivial, "tags": tags, "key": [text, [list(o) for o in outcomes]],
             "sample": {"text": text, "inputs": [M.dec_inputs(e) for e in case["inputs"][:3]],
                        "reference_outcomes": [list(o) for o in outcomes[:3]]}}
+
+
+def _after(case):
+    return " | compiled right after the unrelated text %r" % case["noise"] if case.get("noise") else ""
 
 
 def judge_case(record):
